@@ -45,6 +45,11 @@ func globalWrittenOnlyInInit(p *an.Prog, g *ssa.Global) (bool, string) {
 					if op == ssa.Value(g) {
 						if _, isLoad := ins.(*ssa.UnOp); !isLoad {
 							if st, isSt := ins.(*ssa.Store); !(isSt && st.Addr == ssa.Value(g)) {
+								// an element / field address that is only ever read through (also by a repository callee it is
+								// handed to) does not let the variable change
+								if v, isVal := ins.(ssa.Value); isVal && addrOnlyRead(v, 0) {
+									continue
+								}
 								return false, "address escapes in " + an.FuncName(fn)
 							}
 						}
@@ -54,6 +59,51 @@ func globalWrittenOnlyInInit(p *an.Prog, g *ssa.Global) (bool, string) {
 		}
 	}
 	return true, ""
+}
+
+// addrOnlyRead: every use of the address v (an element or field address) is a load, a further element/field/slice
+// derivation that is itself only read, or an argument of a repository function whose parameter is only read.
+func addrOnlyRead(v ssa.Value, depth int) bool {
+	if depth > 3 {
+		return false
+	}
+	switch v.(type) {
+	case *ssa.IndexAddr, *ssa.FieldAddr, *ssa.Slice, *ssa.Parameter:
+	default:
+		return false
+	}
+	refs := v.Referrers()
+	if refs == nil {
+		return false
+	}
+	for _, r := range *refs {
+		switch x := r.(type) {
+		case *ssa.DebugRef:
+		case *ssa.UnOp:
+			if x.Op != token.MUL {
+				return false
+			}
+		case *ssa.IndexAddr, *ssa.FieldAddr, *ssa.Slice:
+			if !addrOnlyRead(x.(ssa.Value), depth+1) {
+				return false
+			}
+		case *ssa.Call:
+			f := x.Call.StaticCallee()
+			if f == nil || len(f.Blocks) == 0 || f.Pkg == nil || !strings.HasPrefix(f.Pkg.Pkg.Path(), an.Mod) {
+				return false
+			}
+			for i, a := range x.Call.Args {
+				if a == v {
+					if i >= len(f.Params) || !addrOnlyRead(f.Params[i], depth+1) {
+						return false
+					}
+				}
+			}
+		default:
+			return false
+		}
+	}
+	return true
 }
 
 func c07(c *an.Check) {
